@@ -80,6 +80,7 @@ def _mk_finding(pid, f, r):
 
 def run(pid, cfg, tier, seed, workdir, already_broken):
     t0 = time.time()
+    os.environ["MODEL_SCOPE_CHECK"] = "1"
     if cfg.get("acc_check"):
         os.environ["MODEL_ACC_CHECK"] = "1"
     if cfg.get("prot_check"):
@@ -193,6 +194,8 @@ def run(pid, cfg, tier, seed, workdir, already_broken):
                         "policy": r["policy"], "steps": r.get("steps"), "status": r["status"]})
     coverage = {
         "traces_validated_against_impl": s["ok"],
+        "runs_within_scope_of_end_to_end_theorems": s["in_scope"],
+        "scope_rule": "a run is inside Main.RunOK when its program has no set_generation/cache command and the extracted mirror coq/ASModel/Scope.v of GenBound, DstEmpty, CloneSrcCmd and alloc_ok holds before every step",
         "evaluations": s["runs"],
         "distinct_nontrivial": len(s["digests"]),
         "rule": "one run = one program x one schedule executed on /repo (hooks on) and replayed on the extracted model, all events compared; distinct = distinct implementation traces (sha1), all have >= 1 API call per thread",
